@@ -115,6 +115,19 @@ def classify2(prog, f, sink, what, d, n):
     cap, kind = dest_cap(prog, f, d)
     nb = _uncast(n)
     B = Bounder(prog, f)
+    if cap is not None and getattr(cap, "alts", None):
+        # several allocation sites of different size can provide the buffer: the access has to fit each of them
+        worst = None
+        for alt in cap.alts:
+            r = _classify_cap(prog, f, sink, what, d, n, alt, kind, L, B, nb)
+            if r[0] == "X":
+                return ("X", repr(alt), r[2] + " [the buffer can come from the allocation at %s]" % alt.desc.split("@")[-1])
+            worst = worst or r
+        return (worst[0], repr(cap), worst[2] + " [for each of %d allocation sites]" % len(cap.alts))
+    return _classify_cap(prog, f, sink, what, d, n, cap, kind, L, B, nb)
+
+
+def _classify_cap(prog, f, sink, what, d, n, cap, kind, L, B, nb):
     if cap is not None and kind in ("field", "flex"):
         r = _offset_obligation(prog, f, L, B, sink, d, n, cap)
         if r is not None:
@@ -327,10 +340,7 @@ def run_k6_src(chk, prog, files, exceptions, rule="K6-src"):
             if nm not in ("memcpy", "memmove") or len(c.ops) < 3:
                 continue
             src, n_ = c.ops[1], c.ops[2]
-            try:
-                cap, kind = dest_cap(prog, f, src)
-            except Exception:
-                cap, kind = None, "unknown"
+            cap, kind = dest_cap(prog, f, src)
             if cap is None or kind != "field":
                 continue
             inst = "%s:%s-src#%d" % (f.name, nm, k)
@@ -516,18 +526,38 @@ def _offset_obligation(prog, f, L, B, sink, d, n, cap):
                             return ("G", repr(cap), "element access: offset = size * index, length = size, index < %s "
                                     "(assumes the container invariant that this bound never exceeds the allocated "
                                     "element count)" % field_id(bu))
-    # P1  length = X - offset, offset <= X, X <= capacity
-    if nb.is_inst and nb.op == "sub":
-        X, y = nb.ops
-        if is_off(y) and B._le_guarded(y, X, sink) and within(X):
-            return ("G", repr(cap), "length is  X - offset  with offset <= X <= capacity")
-    # P2  length <= C - offset, offset <= C, C <= capacity
-    for (b, _strict) in B.rel_facts(sink.bb, nb):
-        bu = _uncast(b)
-        if bu.is_inst and bu.op == "sub":
-            C, y = bu.ops
-            if is_off(y) and B._le_guarded(y, C, sink) and within(C):
-                return ("G", repr(cap), "guards: offset <= C, length <= C - offset, C <= capacity")
+    def le(y, X):
+        return B._le_guarded(y, X, sink) or _le_phi_cases(prog, f, y, X, sink)
+
+    def p12(nv, block):
+        """P1 / P2 for one (incoming) value of the length, with the guards that hold in `block`"""
+        nu = _uncast(nv)
+        # P1  length = X - offset, offset <= X, X <= capacity
+        if nu.is_inst and nu.op == "sub":
+            X, y = nu.ops
+            if is_off(y) and le(y, X) and within(X):
+                return "length is  X - offset  with offset <= X <= capacity"
+        # P2  length <= C - offset, offset <= C, C <= capacity
+        for (b, _strict) in B.rel_facts(block, nu):
+            bu = _uncast(b)
+            if bu.is_inst and bu.op == "sub":
+                C, y = bu.ops
+                if is_off(y) and le(y, C) and within(C):
+                    return "guards: offset <= C, length <= C - offset, C <= capacity"
+        return None
+
+    r = p12(nb, sink.bb)
+    if r:
+        return ("G", repr(cap), r)
+    if nb.is_inst and nb.op == "phi" and not any(o is nb for o in nb.ops):
+        # min(a, b) written as  n = a; if (b < n) n = b;  -- each incoming value under the guards of its own block
+        parts = [p12(val, pred) for val, pred in zip(nb.ops, nb.x["inc"])]
+        if all(parts):
+            return ("G", repr(cap), "every value the length can take: " + " / ".join(sorted(set(parts))))
+    if nb.is_inst and nb.op == "select":
+        parts = [p12(val, sink.bb) for val in nb.ops[1:]]
+        if all(parts):
+            return ("G", repr(cap), "every value the length can take: " + " / ".join(sorted(set(parts))))
     # P3  a 64 bit sum of the two, compared with the capacity
     N = L.form(n)
     want = L.add(O, N)
@@ -558,6 +588,98 @@ def _offset_obligation(prog, f, L, B, sink, d, n, cap):
             return ("G", repr(cap), "64 bit sum  offset + length  compared with the capacity")
     return ("X", repr(cap), "offset into the buffer: no derivation of  offset + length <= capacity (a comparison of the "
             "length alone, or of a sum that can wrap, does not bound the end of the access)")
+
+
+def _same_val(prog, f, a, b):
+    a, b = _uncast(a), _uncast(b)
+    return a is b or same_quantity(prog, f, a, b) or (a.is_const and b.is_const and a.is_int and b.is_int and a.uval == b.uval)
+
+
+def _le_fact(prog, f, facts, y, X):
+    """one of the facts (icmp, outcome) says  y <= X"""
+    for (c, o) in facts:
+        if not (c.is_inst and c.op == "icmp") or o not in (True, False):
+            continue
+        a, b = c.ops
+        p = c.pred
+        le = None
+        if (p in ("ugt", "sgt") and o is False) or (p in ("ule", "sle", "ult", "slt") and o is True):
+            le = (a, b)
+        elif (p in ("ult", "slt") and o is False) or (p in ("uge", "sge", "ugt", "sgt") and o is True):
+            le = (b, a)
+        if le and _same_val(prog, f, le[0], y) and _same_val(prog, f, le[1], X):
+            return True
+    return False
+
+
+def _le_phi_cases(prog, f, y, X, sink):
+    """y <= X at the sink where y is a phi of a block that dominates the sink (a loop header): every incoming value
+    is 0, or is <= X under the facts of its own edge.  Facts of an edge: the guards of the predecessor, the branch
+    taken, and the guards of the sink with the header's phis replaced by what they receive over that edge (same
+    iteration).  A short-circuit condition  a && b  known false together with b known true gives !a."""
+    u = _uncast(y)
+    if not (u.is_inst and u.op == "phi") or u.bb is sink.bb and False:
+        return False
+    first = u.bb.insts[0] if u.bb.insts else None
+    if first is None or not (u.bb is sink.bb or f.inst_dominates(first, sink)):
+        return False
+    hdr = u.bb
+    for val, pred in zip(u.ops, u.x["inc"]):
+        if val is u:
+            continue
+        if val.is_const and val.is_int and val.uval == 0:
+            continue
+        facts = [(c, o) for (c, o, _b) in f.guards_at(pred) if o in (True, False)]
+        t = pred.term
+        if t.op == "br" and len(t.x["succ"]) == 2 and t.x["succ"][0] is not t.x["succ"][1]:
+            facts.append((t.ops[0], t.x["succ"][0] is hdr))
+        if _le_fact(prog, f, facts, val, X):
+            continue
+        # the sink's guards, with the header's phis seen through this edge
+        subst = {}
+        for ph in hdr.insts:
+            if ph.op != "phi":
+                break
+            for v2, p2 in zip(ph.ops, ph.x["inc"]):
+                if p2 is pred:
+                    subst[id(ph)] = v2
+        known = []
+        for (c, o, _b) in f.guards_at(sink.bb):
+            if c.is_inst and c.op == "icmp" and o in (True, False):
+                ops = []
+                for x in c.ops:
+                    ux = _uncast(x)
+                    ops.append(subst.get(id(ux), x))
+                known.append((c.pred, ops[0], ops[1], o))
+
+        def truth_of(b):
+            """outcome of comparison b if the known facts settle it"""
+            if not (b.is_inst and b.op == "icmp"):
+                return None
+            for (kp, k0, k1, ko) in known:
+                if kp == b.pred and _same_val(prog, f, k0, b.ops[0]) and _same_val(prog, f, k1, b.ops[1]):
+                    return ko
+            return None
+        more = []
+        for (c, o) in facts:
+            if not (c.is_inst and c.op == "phi" and c.ty == "i1"):
+                continue
+            consts = [(v3, p3) for v3, p3 in zip(c.ops, c.x["inc"]) if v3.is_const and v3.is_int]
+            rest = [(v3, p3) for v3, p3 in zip(c.ops, c.x["inc"]) if not (v3.is_const and v3.is_int)]
+            if len(consts) != 1 or len(rest) != 1 or bool(consts[0][0].sval) != o:
+                continue
+            tb = truth_of(rest[0][0])
+            if tb is None or tb == o:
+                continue
+            # b would have given the other outcome: the short cut was taken
+            pc = consts[0][1]
+            tt = pc.term
+            if tt.op == "br" and len(tt.x["succ"]) == 2 and tt.ops[0].is_inst:
+                more.append((tt.ops[0], tt.x["succ"][0] is c.bb))
+        if more and _le_fact(prog, f, facts + more, val, X):
+            continue
+        return False
+    return True
 
 
 def _narrow(v):
